@@ -2210,3 +2210,100 @@ func exprNodes(es []ast.Expr) []ast.Node {
 	}
 	return out
 }
+
+// ---------------------------------------------------------------------------
+// SCAF-NAME
+
+func init() {
+	register(&Rule{
+		Name:  "SCAF-NAME",
+		Doc:   "the scaffold created for a type definition carries the name it is stored under: the function whose result is stored in newIndex.typeDefs[name] returns, on every path, an object whose TypeName is that same name parameter (a recursive call with another name creates a second object named like another definition)",
+		Floor: 10,
+		Run:   ruleSCAFNAME,
+	})
+}
+
+func ruleSCAFNAME(c *Ctx) []Obligation {
+	var obs []Obligation
+	// constructors: functions of asm whose result is stored under newIndex.typeDefs[k] with k their first argument
+	ctors := map[*types.Func]bool{}
+	c.eachFunc(pkgASM, func(p *packages.Package, fd *ast.FuncDecl, fn *types.Func) {
+		info := p.TypesInfo
+		defs := collectDefs(info, fd.Body)
+		ast.Inspect(fd.Body, func(nd ast.Node) bool {
+			as, ok := nd.(*ast.AssignStmt)
+			if !ok || len(as.Lhs) != 1 || len(as.Rhs) != 1 {
+				return true
+			}
+			ix, ok := unparen(as.Lhs[0]).(*ast.IndexExpr)
+			if !ok || mapFieldName(info, ix.X) != "newIndex.typeDefs" {
+				return true
+			}
+			rhs := []ast.Expr{as.Rhs[0]}
+			if id, ok := unparen(as.Rhs[0]).(*ast.Ident); ok {
+				rhs = defs[info.ObjectOf(id)]
+			}
+			for _, r := range rhs {
+				if call, ok := unparen(r).(*ast.CallExpr); ok && len(call.Args) > 0 && exprString(call.Args[0]) == exprString(ix.Index) {
+					if f := calleeOf(info, call); f != nil && f.Pkg() != nil && f.Pkg().Path() == pkgASM {
+						ctors[f] = true
+					}
+				}
+			}
+			return true
+		})
+	})
+	if len(ctors) == 0 {
+		return []Obligation{{Key: "scaffold constructor of newIndex.typeDefs", Verdict: UNDECIDED, Detail: "no `newIndex.typeDefs[name] = f(name, …)` store found"}}
+	}
+	for f := range ctors {
+		fd := c.funcDecl(f)
+		if fd == nil {
+			continue
+		}
+		p := c.declPkg[fd]
+		info := p.TypesInfo
+		nameParam := f.Type().(*types.Signature).Params().At(0)
+		n := 0
+		ast.Inspect(fd.Body, func(nd ast.Node) bool {
+			r, ok := nd.(*ast.ReturnStmt)
+			if !ok || len(r.Results) == 0 {
+				return true
+			}
+			res := unparen(r.Results[0])
+			if id, ok := res.(*ast.Ident); ok && id.Name == "nil" {
+				return true
+			}
+			n++
+			o := Obligation{Key: fmt.Sprintf("%s return #%d carries its name parameter", funcKey(f), n), Pos: c.pos(r.Pos()), Verdict: UNDECIDED, Detail: "unrecognised result expression " + exprString(res)}
+			if ue, ok := res.(*ast.UnaryExpr); ok && ue.Op == token.AND {
+				res = ue.X
+			}
+			switch x := res.(type) {
+			case *ast.CompositeLit:
+				o.Verdict, o.Detail = VIOL, "the scaffold is created without a TypeName"
+				for _, el := range x.Elts {
+					if kv, ok := el.(*ast.KeyValueExpr); ok && exprString(kv.Key) == "TypeName" {
+						if id, ok := unparen(kv.Value).(*ast.Ident); ok && info.ObjectOf(id) == nameParam {
+							o.Verdict, o.Detail = OK, "TypeName: "+id.Name
+						} else {
+							o.Verdict, o.Detail = VIOL, "TypeName is set from "+exprString(kv.Value)+", not from the name the caller stores the object under"
+						}
+					}
+				}
+			case *ast.CallExpr:
+				if callee := calleeOf(info, x); callee == f && len(x.Args) > 0 {
+					if id, ok := unparen(x.Args[0]).(*ast.Ident); ok && info.ObjectOf(id) == nameParam {
+						o.Verdict, o.Detail = OK, "delegates with the same name"
+					} else {
+						o.Verdict = VIOL
+						o.Detail = fmt.Sprintf("for a definition whose body is another named type the function calls itself with %s: the object stored under this definition's name is a fresh scaffold carrying the *other* name, distinct from that definition's own scaffold — `%%a = type %%b` yields two objects named %%b, one of which is never filled (printed as `%%b = type {}`), and uses of %%a do not denote the type the module lists for %%b", exprString(x.Args[0]))
+					}
+				}
+			}
+			obs = append(obs, o)
+			return true
+		})
+	}
+	return obs
+}
